@@ -46,7 +46,7 @@ def run_one(job):
         rc, out = sh(f"git -C {REPO} worktree add -q --detach {wt} HEAD")
         if rc != 0:
             return {"property": prop, "mutant": rel, "status": "scratch worktree failed: " + out[-200:]}
-        rc, out = sh(f"git apply {patch}", cwd=wt)
+        rc, out = sh(f"git apply {patch} || git apply -3 {patch}", cwd=wt)  # -3: a later fix: commit touched neighbouring lines
         if rc != 0:
             return {"property": prop, "mutant": rel, "status": "does-not-apply", "killed": None}
         rc, out = sh(f"./check {prop}", cwd=HERE, env={"PANDERA_REPO": wt, "PYVC_EVIDENCE_DIR": evd, "PYVC_NO_MUTANTS": "1"}, timeout=3000)
